@@ -188,7 +188,6 @@ pub const TEMPLATES: &[&str] = &[
     "return ⟦1⟧; echo $?",
     "local ⟦x⟧=1; echo $?",
     "fc -l ⟦1⟧; echo $?",
-    "kill -l ⟦1⟧; kill -l ⟦TERM⟧; echo $?",
     "ulimit -⟦n⟧ >/dev/null; echo $?",
     "bind -⟦l⟧ >/dev/null 2>&1; echo $?",
     // prompt expansion
@@ -348,7 +347,7 @@ pub fn lex(s: &str) -> Vec<String> {
     let mut cur = String::new();
     let mut kind = 0; // 1 = word, 2 = space
     for c in s.chars() {
-        let k = if c.is_alphanumeric() || c == '_' {
+        let k = if c.is_alphanumeric() || c == '_' || c == '/' || c == '.' {
             1
         } else if c == ' ' || c == '\t' {
             2
